@@ -41,6 +41,9 @@ PathsOf(rep) ==
                HSpine, rep, PR1) : rb \in BOOLEAN}
     \cup {Path(FALSE, TRUE, TRUE, <<El(5, 0, 0, 0, 0, <<0, 0>>), El(6, 0, 120, 400, 4, <<43, 45>>)>>,
                VSpine, rep, PR2)}
+    \* two (and three) elements that all carry explicit end extensions
+    \cup {Path(rb, TRUE, TRUE, <<El(7, 1, 40, 200, 4, <<11, 9>>), El(8, 1, 40, -200, 4, <<5, -3>>),
+                                El(9, 1, 80, 0, 4, <<1, 3>>)>>, HSpine, rep, PR0) : rb \in BOOLEAN}
 Labels(rep) == {Label(10, 0, 0, FALSE, 1024, 0, <<1, 3>>, <<104, 105>>, rep, PR0),
                 Label(11, 3, 5, TRUE, 2048, 90 * 64, <<-401, 799>>, <<111, 100, 100>>, rep, PR1),
                 Label(12, 1, 10, FALSE, 512, 61 * 32, <<0, 0>>, <<84>>, rep, PR2),
